@@ -6,6 +6,9 @@ import FP.Proofs.MpeFactors
 import FP.Proofs.KMPEC
 import FP.Proofs.KMPECComplete
 import FP.Proofs.KLAECExample
+import FP.Spec.ErrGiven
+import FP.Proofs.KMPEGiven
+import FP.Proofs.KMPEGivenExample
 /-!
 # C08 — k-Minimum-Path-Error is feasible for k ≥ width and minimises total slack  (DAG model)
 
@@ -341,5 +344,173 @@ example := kmpec_opt_within_caps CycleWitness.inp _ CycleWitness.base_wf (by dec
 /-- the decoded family of the concrete satisfying assignment is within the caps -/
 example := kmpec_decoded_within_caps CycleWitness.inp _ CycleWitness.base_wf rfl rfl
   CycleWitness.mpec_sat_checked
+
+/-! ## the given-weights branch (`solution_weights_superset`)
+
+`kmpeGivenLP inp ws original_k` is the LP that `kMinPathError.__init__` hands to the solver when
+`solution_weights_superset = ws` is given (`_encode_minpatherror_decomposition_with_given_weights` +
+`_encode_objective`; K2 LP-dump equality, with and without path-length factors). The constructor sets
+`k = len(ws)` and allows empty paths (`inp.ei.forGiven ws`); the theorems hold for every `inp`.
+Vocabulary (`FP/Spec/ErrGiven.lean`): `givenW ws i` — the `i`-th given number, the weight of layer `i`;
+`usedCount k P` — the number of non-empty layers; `MPE.GivenSolution inp ws original_k P sl` — every layer
+is the empty path or a route, at most `original_k` layers used, slacks `≥ 0` of the requested type, and
+`|f(e) − Σ_{i used} ws[i][e ∈ P i]|·scale(e) ≤ Σ_i sl_i[e ∈ P i]` on every non-ignored edge;
+`MPE.GivenBounded` — … and every slack `≤ w_max = max(k·weight_type(max f), max ws)`, the bound of the
+slack columns. -/
+
+/-- **(a) soundness, given weights** (no path-length factors). Every satisfying assignment decodes to a
+bounded choice: every layer is the empty path or a route, at most `original_k` layers are non-empty (the
+row `max_paths_original_k_paths`), the slacks lie in `[0, w_max]` and have the requested type, and every
+non-ignored edge satisfies the slack inequality with layer `i` carrying the `i`-th given number; the
+non-empty layers are routes of the *user's* graph; `gamma = x·slack`; the objective is `Σ_i slack_i`. -/
+theorem kmpe_given_sound (inp : MpeInput) (ws : List Rat) (originalK : Nat) (a : Asg)
+    (h : BaseWF inp.ei.fi.base) (hac : Acyclic inp.ei.fi.base) (hfac : inp.factors = [])
+    (hsat : Sat a (kmpeGivenLP inp ws originalK)) :
+    ∃ ps : List (List Node),
+      decodePaths inp.ei.st (fun e i => a (edgeVar e i)) inp.ei.k = some ps ∧ ps.length = inp.ei.k ∧
+      GivenBounded inp.ei ws originalK (fun i => ps.getD i []) (fun i => a (slackVar i)) ∧
+      (∀ i, i < inp.ei.k → ps.getD i [] ≠ [] →
+        ValidRoute inp.ei.fi.base inp.ei.fi.starts inp.ei.fi.ends (ps.getD i []) ∧ (ps.getD i []).Nodup) ∧
+      (∀ i, i < inp.ei.k → ∀ e ∈ inp.ei.st.g.edges, a (edgeVar e i) = trav inp.ei.st (ps.getD i []) e) ∧
+      (∀ e ∈ inp.ei.basicEdges, ∀ i, i < inp.ei.k →
+        a (gammaVar e i) = a (edgeVar e i) * a (slackVar i)) ∧
+      evalTerms a (kmpeGivenLP inp ws originalK).obj = totalSlack inp.ei.k (fun i => a (slackVar i)) :=
+  FP.kmpe_given_sound inp ws originalK a h hac hfac hsat
+
+/-- **(a') soundness, given weights, with path-length factors** (the code of seeded change C08-3: rows
+9aa / 9ab must see the *length-scaled* slack). For every satisfying assignment of the given-weights LP
+with `path_length_factors ≠ []` (ranges and factors of equal length, `L ≤ U`): every layer is the empty
+path or a route of the user's graph, at most `original_k` are non-empty; every layer's path-length column
+lies in some range `j` and `scaled_slack_i = slack_i · factors[j]`; `gamma(e,i) = x(e,i) · scaled_slack_i
+≤ w_max`; every non-ignored edge satisfies
+`|f(e) − Σ_{i used} ws[i][e ∈ p_i]| · scale(e) ≤ Σ_i scaled_slack_i[e ∈ p_i]`; the objective is the sum of
+the *unscaled* slacks. `hfb` as in `kmpe_factors_sound`. -/
+theorem kmpe_given_factors_sound (inp : MpeInput) (ws : List Rat) (originalK : Nat) (a : Asg)
+    (h : BaseWF inp.ei.fi.base) (hac : Acyclic inp.ei.fi.base)
+    (hne : inp.factors ≠ []) (hlen : inp.ranges.length = inp.factors.length)
+    (hLU : ∀ r ∈ inp.ranges, r.1 ≤ r.2)
+    (hfb : 0 ≤ listMin inp.factors ∧
+      listMax inp.factors ≤ inp.ei.wmax (some ws) * listMax inp.factors)
+    (hsat : Sat a (kmpeGivenLP inp ws originalK)) :
+    ∃ ps : List (List Node),
+      decodePaths inp.ei.st (fun e i => a (edgeVar e i)) inp.ei.k = some ps ∧ ps.length = inp.ei.k ∧
+      (∀ i, i < inp.ei.k → Route inp.ei.st inp.ei.fi.cfg.allowEmpty (ps.getD i [])) ∧
+      (∀ i, i < inp.ei.k → ps.getD i [] ≠ [] →
+        ValidRoute inp.ei.fi.base inp.ei.fi.starts inp.ei.fi.ends (ps.getD i []) ∧ (ps.getD i []).Nodup) ∧
+      usedCount inp.ei.k (fun i => ps.getD i []) ≤ originalK ∧
+      (∀ i, i < inp.ei.k → ∀ e ∈ inp.ei.st.g.edges, a (edgeVar e i) = trav inp.ei.st (ps.getD i []) e) ∧
+      (∀ i, i < inp.ei.k → 0 ≤ a (slackVar i) ∧ a (slackVar i) ≤ inp.ei.wmax (some ws) ∧
+        (inp.ei.fi.weightInt = true → IsInt (a (slackVar i)))) ∧
+      (∀ i, i < inp.ei.k → ∃ j, ∃ hj : j < inp.ranges.length,
+        (inp.ranges[j]).1 ≤ a (lenVar i) ∧ a (lenVar i) ≤ (inp.ranges[j]).2 ∧
+        a (scaledSlackVar i) = a (slackVar i) * inp.factors[j]'(hlen ▸ hj)) ∧
+      (∀ e ∈ inp.ei.basicEdges, ∀ i, i < inp.ei.k →
+        a (gammaVar e i) = a (edgeVar e i) * a (scaledSlackVar i) ∧
+        a (gammaVar e i) ≤ inp.ei.wmax (some ws)) ∧
+      (∀ e ∈ inp.ei.basicEdges,
+        (inp.ei.fi.f e - explained inp.ei.st inp.ei.k (fun i => ps.getD i []) (givenW ws) e).abs
+            * inp.ei.scale e
+          ≤ explained inp.ei.st inp.ei.k (fun i => ps.getD i []) (fun i => a (scaledSlackVar i)) e) ∧
+      evalTerms a (kmpeGivenLP inp ws originalK).obj = totalSlack inp.ei.k (fun i => a (slackVar i)) :=
+  FP.kmpe_given_factors_sound inp ws originalK a h hac hne hlen hLU hfb hsat
+
+/-- **(b) completeness, given weights** (no factors; scope as for `kmpe_complete`): every bounded choice of
+at most `original_k` of the given weights (by index) with routes and slacks is represented, with objective
+`Σ slack_i` -/
+theorem kmpe_given_complete (inp : MpeInput) (ws : List Rat) (originalK : Nat) (P : Nat → List Node)
+    (sl : Nat → Rat) (h : BaseWF inp.ei.fi.base) (hac : Acyclic inp.ei.fi.base) (hfac : inp.factors = [])
+    (hcons : inp.ei.fi.cfg.constraints = []) (hlen : inp.ei.fi.cfg.lengths = none)
+    (hscale : ∀ e ∈ inp.ei.basicEdges, 0 ≤ inp.ei.scale e)
+    (hb : GivenBounded inp.ei ws originalK P sl) :
+    ∃ a : Asg, Sat a (kmpeGivenLP inp ws originalK) ∧
+      (∀ i, i < inp.ei.k → ∀ e ∈ inp.ei.st.g.edges, a (edgeVar e i) = trav inp.ei.st (P i) e) ∧
+      (∀ i, i < inp.ei.k → a (slackVar i) = sl i) ∧
+      evalTerms a (kmpeGivenLP inp ws originalK).obj = totalSlack inp.ei.k sl :=
+  FP.kmpe_given_complete inp ws originalK P sl h hac hfac hcons hlen hscale hb
+
+/-- **(c) optimum transfer, given weights** (no factors). An optimal assignment decodes to a bounded choice
+whose total slack is minimal among all bounded choices of at most `original_k` of the given weights with
+routes and slacks, and the solver's objective is that total slack. -/
+theorem kmpe_given_opt_transfer (inp : MpeInput) (ws : List Rat) (originalK : Nat) (a : Asg)
+    (h : BaseWF inp.ei.fi.base) (hac : Acyclic inp.ei.fi.base) (hfac : inp.factors = [])
+    (hcons : inp.ei.fi.cfg.constraints = []) (hlen : inp.ei.fi.cfg.lengths = none)
+    (hscale : ∀ e ∈ inp.ei.basicEdges, 0 ≤ inp.ei.scale e)
+    (hsat : Sat a (kmpeGivenLP inp ws originalK))
+    (hopt : ∀ a', Sat a' (kmpeGivenLP inp ws originalK) →
+      evalTerms a (kmpeGivenLP inp ws originalK).obj ≤ evalTerms a' (kmpeGivenLP inp ws originalK).obj) :
+    ∃ ps : List (List Node),
+      decodePaths inp.ei.st (fun e i => a (edgeVar e i)) inp.ei.k = some ps ∧
+      GivenBounded inp.ei ws originalK (fun i => ps.getD i []) (fun i => a (slackVar i)) ∧
+      (∀ P' sl', GivenBounded inp.ei ws originalK P' sl' →
+        totalSlack inp.ei.k (fun i => a (slackVar i)) ≤ totalSlack inp.ei.k sl') ∧
+      evalTerms a (kmpeGivenLP inp ws originalK).obj = totalSlack inp.ei.k (fun i => a (slackVar i)) :=
+  FP.kmpe_given_opt_transfer inp ws originalK a h hac hfac hcons hlen hscale hsat hopt
+
+/-- **what the bound cuts off — the code falsifies minimality of the slack when the given weights exceed
+the flow values** (finding C08-given-weights-wmax-cuts-optimum; instance `s0 → u`, `s1 → u`, `u → v`,
+`v → t1`, `v → x`, `s2 → x`, `x → y`, `f = 1` except `f(u,v) = f(x,y) = 0`, `k = 3`, `weight_type = int`,
+`solution_weights_superset = [15, 15, 15]`, hence `w_max = max(3·1, 15) = 15`):
+
+* the LP the constructor builds has optimum `45`: a satisfying assignment with objective `45` exists
+  (routes `s0 u v t1`, `s1 u v x y`, `s2 x y`, slacks `15, 15, 15`) and *every* satisfying assignment has
+  objective at least `45`;
+* yet the same routes — routes of the user's graph, `3 ≤ original_k` layers — with the integer slacks
+  `14, 16, 14` satisfy the slack inequality on every non-ignored edge: total slack `44`;
+* that choice is not bounded (`16 > w_max`): it is exactly what the bound on the slack columns excludes.
+
+Replayed on the real code by `harness/props/c08.py` (returns slack 45, brute force 44). -/
+theorem kmpe_given_wmax_cuts_optimum :
+    (∃ a : Asg, Sat a (kmpeGivenLP GivenExampleMPE.inp GivenExampleMPE.ws 3) ∧
+      evalTerms a (kmpeGivenLP GivenExampleMPE.inp GivenExampleMPE.ws 3).obj = 45) ∧
+    (∀ a, Sat a (kmpeGivenLP GivenExampleMPE.inp GivenExampleMPE.ws 3) →
+      45 ≤ evalTerms a (kmpeGivenLP GivenExampleMPE.inp GivenExampleMPE.ws 3).obj) ∧
+    (GivenSolution GivenExampleMPE.inp.ei GivenExampleMPE.ws 3 GivenExampleMPE.P GivenExampleMPE.sl44 ∧
+      (∀ i, i < 3 → ValidRoute GivenExampleMPE.inp.ei.fi.base GivenExampleMPE.inp.ei.fi.starts
+        GivenExampleMPE.inp.ei.fi.ends (GivenExampleMPE.P i)) ∧
+      totalSlack GivenExampleMPE.inp.ei.k GivenExampleMPE.sl44 = 44) ∧
+    ¬ GivenBounded GivenExampleMPE.inp.ei GivenExampleMPE.ws 3 GivenExampleMPE.P GivenExampleMPE.sl44 :=
+  ⟨GivenExampleMPE.sat45, GivenExampleMPE.lp_lower_bound,
+    ⟨GivenExampleMPE.solution44, GivenExampleMPE.valid_P, GivenExampleMPE.total44⟩,
+    GivenExampleMPE.not_bounded44⟩
+
+/-! ### non-vacuity (given weights) -/
+
+/-- the instance is what the constructor makes of the user's call (`k = len(ws)`, empty paths allowed,
+positions encoded) -/
+example : GivenExampleMPE.inp
+    = { ei := ({ fi := GivenExampleMPE.fi0 } : ErrInput).forGiven GivenExampleMPE.ws } := rfl
+example : GivenExampleMPE.inp.ei.k = 3 ∧ GivenExampleMPE.inp.ei.fi.cfg.allowEmpty = true ∧
+    GivenExampleMPE.inp.ei.fi.cfg.encodePosition = true := ⟨rfl, rfl, rfl⟩
+
+/-- the hypotheses of (b) hold for three routes with slacks `15, 15, 15`, total slack 45 -/
+example : GivenBounded GivenExampleMPE.inp.ei GivenExampleMPE.ws 3 GivenExampleMPE.P GivenExampleMPE.sl15 :=
+  GivenExampleMPE.bounded45
+
+/-- a satisfying assignment of the given-weights LP of that instance (positions encoded), objective 45:
+the hypotheses of (a) are satisfiable -/
+example : ∃ a, Sat a (kmpeGivenLP GivenExampleMPE.inp GivenExampleMPE.ws 3) ∧
+    evalTerms a (kmpeGivenLP GivenExampleMPE.inp GivenExampleMPE.ws 3).obj = 45 := GivenExampleMPE.sat45
+
+/-- (c) applies to a true optimum of the instance (objective `45`, minimal by `lp_lower_bound`) -/
+example : ∃ a, Sat a (kmpeGivenLP GivenExampleMPE.inp GivenExampleMPE.ws 3) ∧
+    ∀ a', Sat a' (kmpeGivenLP GivenExampleMPE.inp GivenExampleMPE.ws 3) →
+      evalTerms a (kmpeGivenLP GivenExampleMPE.inp GivenExampleMPE.ws 3).obj
+        ≤ evalTerms a' (kmpeGivenLP GivenExampleMPE.inp GivenExampleMPE.ws 3).obj := by
+  obtain ⟨a, hsat, hobj⟩ := GivenExampleMPE.sat45
+  exact ⟨a, hsat, fun a' h' => by rw [hobj]; exact GivenExampleMPE.lp_lower_bound a' h'⟩
+
+/-- (a') applies to a concrete satisfying assignment of a given-weights instance *with* path-length
+factors (`a → b → c`, `f = (4, 1)`, given weights `[2]`, one range with factor `2`; 25 columns and 45 rows,
+checked column by column and row by row): slack `1`, scaled slack `2` … -/
+example := kmpe_given_factors_sound GivenExampleMPE.Factors.inp GivenExampleMPE.Factors.ws 1
+  GivenExampleMPE.Factors.asg ErrExample.base_wf ErrExample.base_acyclic
+  GivenExampleMPE.Factors.hyps.1 GivenExampleMPE.Factors.hyps.2.1 GivenExampleMPE.Factors.hyps.2.2.1
+  GivenExampleMPE.Factors.hyps.2.2.2 GivenExampleMPE.Factors.sat
+
+/-- … which decodes to the route `a b c` -/
+example : decodeLayer GivenExampleMPE.Factors.inp.ei.st
+    (fun e i => GivenExampleMPE.Factors.asg (edgeVar e i)) 0 = some ["a", "b", "c"] :=
+  GivenExampleMPE.Factors.decode
+
 
 end FP.Props.C08
